@@ -81,6 +81,18 @@ CHECKS = {
         design_ref="DESIGN.md section 5, C18",
         note=NOTE_COMMON + "SQLite's ASCII case-insensitive LIKE is outside the model (alphabet without case pairs, section 4.5).",
     ),
+    "C20": dict(
+        technique="Lean 4 proof: round-trip theorems for the target encodings of a frame (DictOfLists, ListOfDicts, Dict, Scalar); model tied to the "
+                  "real targets by comparing the encodings of every exported frame",
+        text="Pdt/Props/C20.lean: dictOfLists_names, dictOfLists_roundtrip, listOfDicts_roundtrip, listOfDicts_keys (each encoding decodes to exactly "
+             "the frame's names, order and values for every well-formed frame), dict_defined_iff / dict_is_row, scalar_defined / scalar_rejects (defined "
+             "exactly under the shape conditions the code checks). The oracle runs generated programs on Polars- and SQLite-backed tables and compares "
+             "Polars(lazy) collected, Pandas, DictOfLists, ListOfDicts, Dict, Scalar, ColExpr.export (single columns and an expression mixing an "
+             "ancestor's and the final table's reference) and the re-imported frame with export(Polars()). Thin on purpose: the repo's part is the "
+             "dispatch and the expression-to-table synthesis; Polars' / pandas' converters are modelled.",
+        design_ref="DESIGN.md section 5, C20",
+        note=NOTE_COMMON + "Pandas target exists only for Polars-backed tables (finding D56).",
+    ),
 }
 
 NOT_YET = "check not built yet in this revision of /verif (model and theorems planned in DESIGN.md section 5)"
